@@ -94,6 +94,10 @@ func (t c06tuple) mutated(field string) c06tuple {
 		x := append([]byte{}, n.IDs[1]...)
 		x[5] ^= 1
 		n.IDs[1] = x
+	case "identity-shorter":
+		n.IDs[1] = append([]byte{}, n.IDs[1][:len(n.IDs[1])-1]...)
+	case "identity-longer":
+		n.IDs[1] = append(append([]byte{}, n.IDs[1]...), 0)
 	case "identity-dropped":
 		n.IDs = n.IDs[:1]
 	case "identity-swapped":
@@ -387,7 +391,7 @@ func c06() *report.Check {
 		Rule:  "for every keyper set n<=3/4 and threshold: all signer index lists over {0..n} of length 0..n+1 x signature lists of length {0, |signers|-1, |signers|, |signers|+1, n+1} with entries from {listed signer, other member, outsider, over changed data, 64-byte, garbage} (at most 1 / 2 non-genuine entries) x every single-field change of the signed tuple, against the exported validators of both flavours, the flavours' ValidateMessage through the real combined validator over minipg, and the access node's validator chain; verdict compared with a reference predicate from the statement. Classes = (flavour, verdict, reason)",
 		Assumptions: []string{
 			"signatures are produced with the repository's own SSZ signing helpers; 'genuine' is decided by construction (who signed what), not by re-running the verification code",
-			"identity preimages have the flavour's fixed size (52 / 32 bytes)",
+			"identity preimages have the flavour's usual size (52 / 32 bytes) when signed; the carried message also has one identity a byte shorter / longer (the Gnosis signing root cannot be computed for it)",
 		},
 		Shards: func(bool) int { return 16 },
 		Budget: minutes(3, 20),
@@ -456,7 +460,7 @@ func c06() *report.Check {
 							targets = append(targets, "accessnode")
 						}
 						for _, tg := range append([]string{"func"}, targets...) {
-							for _, f := range []string{"", "instance", "eon", "slot", "ptr", "identity-byte", "identity-dropped", "identity-swapped", "identity-added"} {
+							for _, f := range []string{"", "instance", "eon", "slot", "ptr", "identity-byte", "identity-shorter", "identity-longer", "identity-dropped", "identity-swapped", "identity-added"} {
 								if fl == "service" && (f == "slot" || f == "ptr") {
 									continue
 								}
